@@ -128,6 +128,23 @@ CLAIMED = {
         "Correspondence: the real parse_tx / ParseFixedPoint / Instance::parse_transaction vs model vs spec vs an independent Python encoder on "
         "doc/txs, generated transactions, truncations, corruptions.",
         "DESIGN.md section 6 (C13)", "Lean 4 round-trip proofs (parser combinators) + differential correspondence with two independent encoders"),
+    "C14": claim(
+        "Lean theorems for all inputs: EncodeBase58 is the positional base-58 numeral with the leading-zero rule; Base58 / Base58Check decode(encode x) = x, "
+        "every accepted string is the encoding of its result (a corrupted string is never accepted as the original payload), and the scratch buffers of "
+        "base58.cpp always suffice (256^100 < 58^138, 58^1000 < 256^733: the carry assertion cannot fail); PolyMod, Encode and Decode of bech32.cpp equal the "
+        "BIP173/BIP350 reference functions on every input, the created checksum verifies with constant 1 / 0x2bc830a3, Decode(Encode) = id for valid hrp / 5-bit "
+        "data / <= 90 characters, Decode accepts only encodings, one wrong data symbol is always detected; ConvertBits 8->5 / 5->8 equal the value-based regrouping "
+        "and round-trip; hash transforms are Crypto.sha256/ripemd160/hash256/hash160/taggedHash on the denoted bytes; compact-size prefix (always a data value) "
+        "decodes back; reverse is an involution; add/sub are (a±b) mod g on the integers for all operands (mod 2^256 without modulus); the Jacobi loop equals the "
+        "recursive reciprocity law; extract_values reads back exactly the operands written (numbers -1..16 and empty values included); base58chk/bech32/address "
+        "transforms invert each other; addr-to-scriptpubkey, bech32-decode and verify-sig end normally on every value and yield data only from genuine encodings; "
+        "inline form = command form for every table row do_exec knows, down to the text name(arg) (inline_text), and "
+        "OP_SHA256/RIPEMD160/HASH160/HASH256 push the transform's bytes. Correspondence: every tf table entry x argument shapes x lengths across 55/56/64, 252/253, "
+        "65535/65536, all single-character corruptions of sample base58check/bech32/bech32m strings, arithmetic/Jacobi/key/signature grids and the reproducers of "
+        "the repaired defects, through fn_tf and the Value parser in-process (stdout, stderr, return value), an interactive btcdeb pty session and the btcc "
+        "binary, against the Lean model, the Lean specification and an independent Python oracle. Known finding: rows of the tf table without (or with a "
+        "differently named) inline form.",
+        "DESIGN.md section 6 (C14)", "Lean 4 proofs (numeral uniqueness, GF(2)-linearity of the BCH remainder, state invariants of ConvertBits, totality by composition) + four-voice differential correspondence"),
     "C16": claim(
         "Lean theorems: exec never changes position, script, history, flags or signature version (C16_position_untouched, by the frame lemma "
         "over every opcode), each applied operation is one StepScript and therefore the specification's instruction (C16_first_op via step_refines), "
